@@ -47,6 +47,12 @@ func CopyLogs(ctx context.Context, dst, src raft.LogStore, batchBytes int, progr
 		return fmt.Errorf("failed getting last index: %w", err)
 	}
 
+	if first == 0 && last == 0 {
+		// Source is empty, there is nothing to copy.
+		update("DONE: source log is empty, nothing to copy")
+		return nil
+	}
+
 	batch := make([]*raft.Log, 0, 4096)
 	batchSize := 0
 	n := 0
